@@ -42,11 +42,21 @@ def signature(res):
     return v["invariant"] if v else None
 
 
+_FROZEN = []
+
+
 def _worker(args):
     """Run a chunk of run indices.  Returns aggregated statistics."""
     modname, tier, base, indices, det_every, opts, deadline_wall = args
     faulthandler.dump_traceback_later(opts.get("watchdog", 300), exit=True)
     mod = __import__(modname, fromlist=["x"])
+    if not _FROZEN:
+        # everything imported so far is permanent: later collections (one per run, in setup.finish) only look at
+        # what the runs themselves allocate
+        import gc
+        gc.collect()
+        gc.freeze()
+        _FROZEN.append(True)
     out = {"runs": 0, "probes": {}, "faults": {}, "digests_nt": set(), "states": set(),
            "sim_s": 0.0, "failures": [], "errors": [], "det_checked": 0, "det_bad": [],
            "digest_of": {}, "samples": [], "truncated": False, "known_hits": {}, "steps": 0,
@@ -201,6 +211,9 @@ def main(mod, argv=None):
     ap.add_argument("--log", action="store_true", help="with --replay: print the event log")
     ap.add_argument("--no-evidence", action="store_true")
     ap.add_argument("--show", type=int, help="print the plan of run index N and exit")
+    ap.add_argument("--fast", action="store_true",
+                    help="sensitivity self-tests: stop handing out work after the first failure, confirm at most three "
+                         "signatures with a small minimisation budget (verdicts are confirmed in a fresh interpreter as always)")
     a = ap.parse_args(argv)
     base = int(os.environ.get("VERIF_SEED", "0") or 0)
     modname = mod.__name__
@@ -276,6 +289,8 @@ def main(mod, argv=None):
         with ProcessPoolExecutor(max_workers=jobs, mp_context=ctx) as ex:
             futs = [ex.submit(_worker, (modname, a.tier, base, c, det_every, opts, deadline_wall)) for c in chunks]
             for f in as_completed(futs):
+                if f.cancelled():
+                    continue
                 o = f.result()
                 agg["runs"] += o["runs"]
                 agg["steps"] += o["steps"]
@@ -295,6 +310,9 @@ def main(mod, argv=None):
                 if len(agg["samples"]) < 3:
                     agg["samples"] += o["samples"][:1]
                 agg["truncated"] = agg["truncated"] or o["truncated"]
+                if a.fast and agg["failures"]:
+                    for g in futs:
+                        g.cancel()
     except Exception:
         harness_errors.append("worker pool failed: " + traceback.format_exc(limit=5))
 
@@ -352,14 +370,17 @@ def main(mod, argv=None):
     by_sig = {}
     for f in sorted(agg["failures"], key=lambda f: f["index"]):
         by_sig.setdefault(f["violation"]["invariant"], []).append(f)
-    for sig, flist in sorted(by_sig.items()):
+    for nsig, (sig, flist) in enumerate(sorted(by_sig.items())):
+        if a.fast and nsig >= 3 and violations:
+            break
         confirmed = False
         last_out = ""
         # a failure that does not replay in a fresh interpreter (e.g. state that leaked from an earlier run
         # of the same worker process) is not reported; the next failures with the same signature are tried
         for f in flist[:6]:
             try:
-                small = _minimise_in_child(modname, f["plan"], sig, mod.SHRINK_BUDGET if hasattr(mod, "SHRINK_BUDGET") else 400)
+                small = _minimise_in_child(modname, f["plan"], sig,
+                                           30 if a.fast else mod.SHRINK_BUDGET if hasattr(mod, "SHRINK_BUDGET") else 400)
             except Exception:
                 small = f["plan"]
                 print("NOTE: minimisation failed, reporting the unminimised plan\n" + traceback.format_exc(limit=3))
